@@ -213,7 +213,28 @@ macro_rules! laws {
         if run.items != base || run.pos != base_pos {
             fail($rep, $what, "fold", format!("fold: {:?} at {}, expected {:?} at {}", run.items, run.pos, base, base_pos), input);
         }
-        // (the iterators are not fused: nothing is polled again once `None` was returned)
+        // the iterators themselves need not be fused (nothing above polls again after `None`), but
+        // `fuse()` must make them so: Fuse trusts a FusedIterator impl, so a type that claims to be
+        // fused and is not shows up here as items after the end
+        let run = variant!("fuse", |it| {
+            let mut f = it.fuse();
+            let mut v: Vec<Obs> = Vec::new();
+            while let Some(x) = f.next() {
+                v.push($conv(x));
+                if v.len() > cap {
+                    break;
+                }
+            }
+            for _ in 0..3 {
+                if let Some(x) = f.next() {
+                    v.push(Err(format!("after None: {:?}", $conv(x))));
+                }
+            }
+            v
+        });
+        if run.items != base || run.pos != base_pos {
+            fail($rep, $what, "fuse", format!("fuse() polled 3 more times after None: {:?} at {}, expected {:?} at {}", run.items, run.pos, base, base_pos), input);
+        }
         let run = variant!("take-then-rest", |it| {
             let mut v: Vec<Obs> = Vec::new();
             if n >= 2 {
@@ -263,12 +284,17 @@ pub fn check_item(rep: &mut Report, it: &Item, enc: &[u8]) {
     if enc.len() > 600 {
         return;
     }
-    match it {
-        Item::Array { .. } => arr(rep, enc),
-        Item::Map { .. } => map(rep, enc),
-        Item::Bytes { .. } | Item::BytesIndef(_) => bytes(rep, enc),
-        Item::Text { .. } | Item::TextIndef(_) => strs(rep, enc),
-        _ => {}
+    // alone, and with sibling items behind it (what an iterator that runs past its end would yield)
+    let mut followed = enc.to_vec();
+    followed.extend_from_slice(&[0x42, 0x61, 0x62, 0x61, 0x63, 0x01, 0x81, 0x02]);
+    for input in [enc, &followed[..]] {
+        match it {
+            Item::Array { .. } => arr(rep, input),
+            Item::Map { .. } => map(rep, input),
+            Item::Bytes { .. } | Item::BytesIndef(_) => bytes(rep, input),
+            Item::Text { .. } | Item::TextIndef(_) => strs(rep, input),
+            _ => {}
+        }
     }
     toks(rep, enc);
     tokenizer(rep, enc);
